@@ -48,7 +48,7 @@ func listUploads(s *drv.Server, bucket, prefix, delim string, extra ...string) (
 
 func runC14(c *Ctx) {
 	r := c.R
-	r.SetRule("random multipart histories (initiate/upload-part/overwrite-part/abort/complete) over keys {a/k1,a/k2,a/b/c,ab/x,b,b/y} with 1-3 uploads per key and part numbers with gaps; then ListMultipartUploads for every prefix in a list x delimiter {none,'/'} unpaginated and walked with the server's NextKeyMarker/NextUploadIdMarker for every max-uploads 1..n+1, and ListParts of every pending upload unpaginated, walked with NextPartNumberMarker for every max-parts 1..n+1, and started at arbitrary numeric part-number markers incl. beyond the highest part; mem and fs-mm; distinct = (backend, history, listing kind, prefix, delimiter, page size or marker)")
+	r.SetRule("random multipart histories (initiate/upload-part/overwrite-part/abort/complete, one history in five with an initiate request that names no key) over keys {a/k1,a/k2,a/b/c,ab/x,b,b/y} with 1-3 uploads per key and part numbers with gaps; then ListMultipartUploads for every prefix in a list x delimiter {none,'/'} unpaginated and walked with the server's NextKeyMarker/NextUploadIdMarker for every max-uploads 1..n+1, and ListParts of every pending upload unpaginated, walked with NextPartNumberMarker for every max-parts 1..n+1, and started at arbitrary numeric part-number markers incl. beyond the highest part; mem and fs-mm; distinct = (backend, history, listing kind, prefix, delimiter, page size or marker)")
 	nh := r.Pick(400, 30000)
 	kinds := []string{drv.Mem, drv.FsMM}
 	r.Set("backends", kinds)
@@ -97,7 +97,34 @@ func c14History(r *rep.Reporter, s *drv.Server, kind, bucket string, hi int, key
 		r.Violation(sig("C14", "any", anom, trig), fmt.Sprintf("%s history %d: %s", kind, hi, what), map[string]interface{}{"backend": kind, "history": trace, "detail": extra})
 	}
 	nsteps := 6 + rng.Intn(20)
+	noKeyAt := map[int]bool{}
+	if rng.Intn(5) == 0 {
+		for i := 0; i < 1+rng.Intn(3); i++ {
+			noKeyAt[rng.Intn(nsteps)] = true
+		}
+	}
 	for st := 0; st < nsteps; st++ {
+		if noKeyAt[st] {
+			// an initiate request that names no key: it may be refused; if the server hands out an
+			// upload id for it, that upload exists (under the empty key) like any other
+			resp := s.Do(&drv.Req{Method: "POST", Path: "/" + bucket, Query: "uploads"})
+			r.Count("initiates_without_key", 1)
+			var ir drv.InitResult
+			switch {
+			case resp.Panic != nil:
+				fail("panic", "initiate-without-key", fmt.Sprint(resp.Panic), nil)
+				return
+			case resp.Status == 200 && drv.ParseXML(resp.Body, &ir) == nil && ir.UploadID != "":
+				ids, idKey = append(ids, ir.UploadID), append(idKey, "")
+				mm.Initiate(ir.UploadID, bucket, "", nil)
+				trace = append(trace, fmt.Sprintf("initiate (no key) -> upload#%d", len(ids)-1))
+			case resp.Status >= 400 && resp.Status < 500:
+				trace = append(trace, "initiate (no key) refused "+resp.ErrCode())
+			default:
+				fail("initiate-without-key-failed", "", resp.String(), nil)
+				return
+			}
+		}
 		x := rng.Intn(100)
 		switch {
 		case len(ids) == 0 || x < 35:
